@@ -582,3 +582,74 @@ Proof.
   eapply Forall_impl; [|exact H]. intros o Ho. cbv beta in *.
   eapply Forall_impl; [|exact Ho]. intros d Hd. apply version_splice_needs_class1. exact Hd.
 Qed.
+
+(* ------------------------------------------------------------------------ *)
+(* 5. the same with request context deadlines (Deadline.v): B's side of [dstep] is B's side of [tstep]   *)
+
+Lemma b_dstep c dls w te : b_inv (dw w) -> b_step_ok (dw w) (dw (fst (dstep c dls w te))).
+Proof.
+  intros Hb.
+  assert (Hlift : forall r, b_step_ok (dw w) (fst r) -> b_step_ok (dw w) (dw (fst (dlift w r)))).
+  { intros r H. exact H. }
+  assert (Harr : forall tw toB m, twb tw = twb (dw w) -> tnow tw = tnow (dw w) ->
+            b_step_ok (dw w) (dw (fst (darrive c w tw toB m)))).
+  { intros tw toB m E T. assert (Hb' : b_inv tw) by (unfold b_inv; rewrite E; exact Hb).
+    unfold darrive. destruct toB.
+    - pose proof (b_arrive c tw true m Hb') as H. destruct (tarrive c tw true m) as [tw' o]. cbn [fst dw] in *.
+      unfold b_step_ok in *. rewrite E, T in H. exact H.
+    - unfold darrive_a. cbn [dw dctx].
+      destruct (dhandle app_a (tnow tw) (sent_ctx {| dw := tw; dctx := dctx w |} (mtok m)) (twa tw) m) as [[[e' o] d] nerr].
+      destruct (tcomplete (tpending tw) d e') as [[p' e''] rets]. cbn [fst dw].
+      apply b_step_same; [exact Hb|rewrite twb_temit; exact E|rewrite tnow_temit; exact T]. }
+  destruct te as [e|d|atB]; [|exact (Hlift _ (b_step c (dw w) (Age d) Hb))|exact (Hlift _ (b_step c (dw w) (Sweep atB) Hb))].
+  destruct e as [i|j|j|j|h|k|i|atB]; cbn [dstep].
+  - destruct (nth_error (cexch c) i) as [x|] eqn:Ex; [|exact (Hlift _ (b_step c (dw w) (Ev (Start i)) Hb))].
+    destruct (xkind x =? 0); [|exact (Hlift _ (b_step c (dw w) (Ev (Start i)) Hb))].
+    destruct (ddo_start _ _ (twa (dw w)) (request_of x)) as [e' o]. destruct o; unfold dlift, tstarted; cbn [fst snd dw];
+      (apply b_step_same; [exact Hb|rewrite twb_temit; reflexivity|rewrite tnow_temit; reflexivity]).
+  - destruct (nth_error (tflight (dw w)) j) as [[toB m]|]; [apply Harr; reflexivity|].
+    apply Hlift. cbn [tquiet fst]. apply b_step_same; [exact Hb|reflexivity|reflexivity].
+  - destruct (nth_error (tflight (dw w)) j) as [[toB m]|]; [apply Harr; reflexivity|].
+    apply Hlift. cbn [tquiet fst]. apply b_step_same; [exact Hb|reflexivity|reflexivity].
+  - exact (Hlift _ (b_step c (dw w) (Ev (Drop j)) Hb)).
+  - destruct (nth_error (twhist (dw w)) h) as [[toB m]|]; [apply Harr; reflexivity|].
+    apply Hlift. cbn [tquiet fst]. apply b_step_same; [exact Hb|reflexivity|reflexivity].
+  - exact (Hlift _ (b_step c (dw w) (Ev (Bump k)) Hb)).
+  - exact (Hlift _ (b_step c (dw w) (Ev (Timeout i)) Hb)).
+  - exact (Hlift _ (b_step c (dw w) (Ev (Expire atB)) Hb)).
+Qed.
+
+Fixpoint dreach_w (c : cfg) (dls : deadlines) (w : dworld) (es : list tev) : dworld :=
+  match es with [] => w | e :: r => dreach_w c dls (fst (dstep c dls w e)) r end.
+
+Lemma dreach_inv c dls es : forall w, b_inv (dw w) -> b_inv (dw (dreach_w c dls w es)) /\ tnow (dw w) <= tnow (dw (dreach_w c dls w es)).
+Proof.
+  induction es as [|e es IH]; intros w Hb; cbn [dreach_w]; [split; [exact Hb|lia]|].
+  destruct (b_dstep c dls w e Hb) as (Hb' & _ & Ht). destruct (IH _ Hb') as [H1 H2]. split; [exact H1|lia].
+Qed.
+
+Theorem parked_never_swapped_d c dls es : forall w k dl m,
+  b_inv (dw w) -> 0 <= k < FRESH -> craw (tsnd (twb (dw w))) k = Some (dl, m) ->
+  tnow (dw (dreach_w c dls w es)) <= dl ->
+  craw (tsnd (twb (dw (dreach_w c dls w es)))) k = Some (dl, m) \/
+  exists es1 es2, es = es1 ++ es2 /\ craw (tsnd (twb (dw (dreach_w c dls w es1)))) k = None.
+Proof.
+  induction es as [|e es IH]; intros w k dl m Hb Hk Hraw Hend; cbn [dreach_w] in *; [left; exact Hraw|].
+  destruct (b_dstep c dls w e Hb) as (Hb' & Hsg & Ht).
+  destruct (dreach_inv c dls es _ Hb') as [_ Ht'].
+  assert (Hl : expired (tnow (dw w)) dl = false) by (unfold expired; apply Z.ltb_ge; lia).
+  destruct (Hsg k dl m Hk Hraw Hl) as [H|H].
+  - destruct (IH _ k dl m Hb' Hk H Hend) as [G|(es1 & es2 & -> & G)]; [left; exact G|].
+    right. exists (e :: es1), es2. split; [reflexivity|exact G].
+  - right. exists [e], es. split; [reflexivity|exact H].
+Qed.
+
+Corollary parked_never_swapped_d_init c dls es0 es k dl m :
+  let w := dreach_w c dls (dinit c) es0 in
+  0 <= k < FRESH -> craw (tsnd (twb (dw w))) k = Some (dl, m) ->
+  tnow (dw (dreach_w c dls w es)) <= dl ->
+  craw (tsnd (twb (dw (dreach_w c dls w es)))) k = Some (dl, m) \/
+  exists es1 es2, es = es1 ++ es2 /\ craw (tsnd (twb (dw (dreach_w c dls w es1)))) k = None.
+Proof.
+  intros w. apply parked_never_swapped_d. exact (proj1 (dreach_inv c dls es0 (dinit c) (b_inv_init c))).
+Qed.
